@@ -21,6 +21,17 @@ CLAIMED = {
    text="Every mutant of the stated classes of every corpus entry (all nine types, both polygon formats, snapped / off-centre / bound-encoded / zero-vertex loops) is decoded by every Decode method; a panic, an abnormal process exit, a stall, an accepted over-limit count, more than 64 MB allocated for an over-limit count, or a panic while querying a returned value is a violation.",
    note="Enumeration is exhaustive over the corpus x mutation classes, not over all byte strings; mutants that declare a within-limit giant count are counted but not run (documented limits permit 1.2 GB allocations); termination is observed by a watchdog.",
    design="DESIGN.md §3.7, §6 C15"),
+
+ "C02": dict(level="exploration", engine="E3 enum",
+   technique="bounded-exhaustive enumeration: every triple / 5-subset over degenerate and ulp-neighbour point alphabets, against exact big.Int determinants, an independent definitional model of the symbolic perturbation, the chirotope axioms, and exact rational distance comparisons; each float fast path checked on its own through hooks",
+   text="Every ordered triple over P-deg ∪ P-tiny, every K-ulp perturbation of the third point of every exactly coplanar triple, every 5-subset (Grassmann-Plücker), and every triple/pair for CompareDistances / CompareDistance / SignDotProd is evaluated; RobustSign must equal the exact sign (with the documented perturbation on ties), be rotation-invariant and swap-antisymmetric, and no fast path may return a wrong non-zero sign.",
+   note="Universal claim over float64 inputs is only decided on the lattice (DESIGN L1); FMA cannot be exercised on amd64 (L4).",
+   design="DESIGN.md §6 C02"),
+ "C03": dict(level="model_checking", engine="E3 enum + E2 opseq",
+   technique="exhaustive enumeration of all ordered quadruples over a degenerate point alphabet against the exact four-orientation criterion, plus explicit-state breadth-first search over the (c, acb) state of one EdgeCrosser per edge AB (every transition a real method call, state read through a hook) and all unmerged call sequences of length <= 3",
+   text="CrossingSign / VertexCrossing / EdgeOrVertexCrossing equal the exact reference on every quadruple and are symmetric; every reachable EdgeCrosser state under RestartAt / ChainCrossingSign / EdgeOrVertexChainCrossing / CrossingSign / EdgeOrVertexCrossing with every argument gives the stateless exact answer for the chain edge.",
+   note="Alphabets of 13-24 points (quadruples) and 8-12 points (crosser); the state merge relies on (c, acb) being the only mutable crosser fields.",
+   design="DESIGN.md §6 C03"),
 }
 
 PLANNED = {  # not yet claimed: each gets a reason in not_applicable until its check is committed
